@@ -676,10 +676,28 @@ pub fn run_case(tape: &mut Tape, _tier: Tier, _p: &CaseParams) -> CaseOutcome {
         if bslots.get(k) != Some(v)
           || before["modules"].get(k) != reloaded["modules"].get(k)
         {
+          // reload() loads the specifier as a root, without the attribute its
+          // importers use: where a from-scratch build has an attribute error
+          // the reloaded graph has a module - and that module's dependencies
+          let et = edit_target.as_ref().unwrap();
+          let target_with_attr = world2.descs.values().any(|d| {
+            d.items.iter().any(|it| {
+              it.attr.is_some()
+                && final_target(&world2, &resolve_text(&world2, &d.url, &it.spec))
+                  == *et
+            })
+          });
+          // (the module may since have been overwritten by the attribute
+          // error of another request that resolved to it)
+          let new_below_reloaded = bslots.get(k).is_none() && target_with_attr;
           out.violation(
             "C19",
             "reload-leaves-unreachable-entries-alone",
-            "reload:leftover-altered",
+            if new_below_reloaded {
+              "reload:new-entry-below:reloaded-specifier-is-imported-with-attribute"
+            } else {
+              "reload:leftover-altered"
+            },
             format!(
               "entry {} is not part of the from-scratch graph of the new sources and was altered by the reload: before {:?}, after {}",
               k,
